@@ -28,9 +28,18 @@ def gen_vec(rng, dom, n, shape=None):
     return v
 
 
-def triple(rng, dom, n):
+def triple(rng, dom, n, force=None):
     x = gen_vec(rng, dom, n)
     r = rng.random()
+    if force == "chain" and dom != "prob":
+        r = 0.35
+    if force == "zeros" and dom in ("real", "nonneg", "pos"):
+        # coordinates that are exactly zero in two of the three vectors at once (sparse rows), one of the vectors all zero
+        # or a single spike: the middle vector is small and dense
+        x = [0.0] * n; x[rng.randrange(n)] = float(rng.randint(1, 3))
+        z = [0.0] * n if rng.random() < 0.6 else list(x[::-1])
+        y = [rng.uniform(0.05, 0.2) for _ in range(n)]; y[x.index(max(x))] = max(x) / 2.0
+        return x, y, z
     if dom in ("real", "nonneg") and r > 0.95:
         x = [0.0] * n                                  # the all-zero vector (identical zero vectors below)
         r = 0.0
@@ -91,7 +100,7 @@ def main(tier, seed):
             if long_vec:
                 # long feature vectors (deep / histogram features): running sums and products over hundreds of coordinates
                 n = rng.choice([33, 64, 130, 154, 260, 1030])
-            x, y, z = triple(rng, dom, n)
+            x, y, z = triple(rng, dom, n, force=("chain" if r % 10 == 6 else "zeros" if (r % 10 == 7 and n >= 2) else None))
             if long_vec and dom != "prob":
                 sc = rng.choice([1.0, 100.0, 1000.0])
                 x, y, z = [v * sc for v in x], [v * sc for v in y], [v * sc for v in z]
